@@ -6,9 +6,13 @@
 set -u
 D=$1; DEST=$2; shift 2
 export GOFLAGS=-mod=mod GOPROXY=off GOSUMDB=off GOTOOLCHAIN=local
-WT=/var/tmp/seedchk_$$
-git -C /repo worktree add -q --detach $WT HEAD || exit 2
-trap "git -C /repo worktree remove --force $WT" EXIT
+SLOT=""
+for s in a b c d; do if mkdir /var/tmp/seedlock_$s 2>/dev/null; then SLOT=$s; break; fi; done
+[ -n "$SLOT" ] || { echo "all seedcheck slots busy"; exit 2; }
+WT=/var/tmp/seedchk_$SLOT
+git -C /repo worktree remove --force $WT 2>/dev/null
+git -C /repo worktree add -q --detach $WT HEAD || { rmdir /var/tmp/seedlock_$SLOT; exit 2; }
+trap "git -C /repo worktree remove --force $WT; rmdir /var/tmp/seedlock_$SLOT" EXIT
 cd $WT
 DEMO=$(ls $D | grep -v patch.diff | grep -v README | grep -v meta.json | head -1)
 cp $D/$DEMO $DEST
